@@ -1,5 +1,6 @@
 import Libp2pModel.Common.Machine
 import Libp2pModel.Proofs.C51_Sim
+import Libp2pModel.Proofs.C51_Poll
 /-!
 # C51 — property theorems
 
@@ -389,7 +390,7 @@ theorem cookie_once_step (c : Cfg) (s : St) (q : Option Nat) (ck : Cookie) (limi
     | nil => intro es h; simp [allSome] at h; subst h; rfl
     | cons a t ih =>
       intro es h
-      simp only [List.map, allSome] at h
+      simp only [List.map] at h
       cases hl : lookup a s.regs with
       | none => simp [hl, allSome] at h
       | some v =>
@@ -533,6 +534,7 @@ theorem expired_event_exact (c : Cfg) (hmin : 1 ≤ c.minTtl) (ops : List Op) (d
 /-! ## the pre-fix code violates the property (documentation of the three repaired defects) -/
 
 def cfgA : Cfg := ⟨600, 2400, 1, 4, 2⟩
+def cfgA2 : Cfg := ⟨600, 2400, 2, 4, 2⟩
 
 /-- pre-fix: a refresh at the per-peer limit was refused with `Unavailable` -/
 theorem refresh_refused_at_peer_limit_buggy_counterexample :
@@ -579,6 +581,388 @@ example : (step cfgA (step cfgA St.init (.reg 0 0 (some 600))).1 (.disc none non
     = .discOk [(0, ⟨0, 0, 600⟩)] none := by decide
 example : 1 ≤ cfgA.minTtl := by decide
 
+/-! ## `poll` one iteration at a time: confluence with the bulk form -/
+
+/-- **`pollOne`* = `advance`.** Move the clock by `d`, then run `poll`'s loop one iteration at a time,
+at every step yielding ANY timer that is due (the order in which `FuturesUnordered` yields completed
+expiries is arbitrary), until nothing is due. Whatever the order: the final state is exactly the
+state `advance s d` computes, the emitted `RegistrationExpired` events are a permutation of
+`advance`'s events (same multiset), and the number of iterations is the number of due timers
+(termination measure). Holds in every state whose `registrations` map has distinct keys (a `HashMap`;
+true in every reachable state, see `pollOne_star_eq_advance_reachable`). -/
+theorem pollOne_star_eq_advance (s : St) (d : Nat) (hnd : (s.regs.map (·.1)).Nodup)
+    {n : Nat} {evs : List (Nat × Reg)} {sf : St} (hrun : PollRun { s with now := s.now + d } n evs sf) :
+    sf = (advance s d).1 ∧ (∃ es, (advance s d).2 = .expired es ∧ evs.Perm es) ∧
+    n = (dueIds s (s.now + d)).length := by
+  have h := pollRun_eq_advance hrun hnd
+  rw [advance_tick]
+  refine ⟨h.1, ⟨_, rfl, h.2.1⟩, ?_⟩
+  rw [h.2.2]; simp [dueCount, dueIds]
+
+/-- such a run always exists: the loop terminates (each iteration consumes one due timer) -/
+theorem pollOne_star_terminates (s : St) (d : Nat) :
+    ∃ n evs sf, PollRun { s with now := s.now + d } n evs sf := pollRun_exists _ _ rfl
+
+/-- the same in every state reachable with arbitrary interleaving of requests, clock ticks and single
+`poll` iterations: finishing the pending iterations in any order = the bulk `advance 0` -/
+theorem pollOne_star_eq_advance_reachable (c : Cfg) (ops : List FOp) (d : Nat)
+    {n : Nat} {evs : List (Nat × Reg)} {sf : St}
+    (hrun : PollRun { (Machine.exec (fstep c) St.init ops) with now := (Machine.exec (fstep c) St.init ops).now + d } n evs sf) :
+    sf = (advance (Machine.exec (fstep c) St.init ops) d).1 ∧
+    ∃ es, (advance (Machine.exec (fstep c) St.init ops) d).2 = .expired es ∧ evs.Perm es :=
+  let h := pollOne_star_eq_advance _ d (finv_reachable c ops).rnd hrun
+  ⟨h.1, h.2.1⟩
+
+/-! ## TTL guarantees under arbitrary interleaving (`FOp`: requests, `tick`, single `poll e`) -/
+
+theorem timer_unique {ts : List (Nat × Nat)} (hnd : (ts.map (·.2)).Nodup) {a b id : Nat}
+    (ha : (a, id) ∈ ts) (hb : (b, id) ∈ ts) : a = b := by
+  induction ts with
+  | nil => simp at ha
+  | cons x tl ih =>
+    simp only [List.map, List.nodup_cons] at hnd
+    rcases List.mem_cons.1 ha with h1 | h1 <;> rcases List.mem_cons.1 hb with h2 | h2
+    · rw [← h1] at h2; exact (Prod.mk.inj h2).1.symm
+    · exact absurd (List.mem_map.2 ⟨_, h2, by rw [← h1]⟩) hnd.1
+    · exact absurd (List.mem_map.2 ⟨_, h1, by rw [← h2]⟩) hnd.1
+    · exact ih hnd.2 h1 h2
+
+theorem fstep_now_mono (c : Cfg) (s : St) (o : FOp) : s.now ≤ (fstep c s o).1.now := by
+  cases o with
+  | reg peer ns ttlOpt =>
+    simp only [fstep]
+    rcases reg_cases c s peer ns ttlOpt with ⟨e, he⟩ | ⟨s', he, _, _, _, hn, _⟩
+    · rw [he]; exact Nat.le_refl _
+    · rw [he]; dsimp only; omega
+  | unreg peer ns => simp only [fstep, step, stepV]; rw [(remove_frame s peer ns).2.1]; exact Nat.le_refl _
+  | disc q cookie limit chosen =>
+    simp only [fstep, step, stepV]; rw [(get_frame2 c s q cookie limit chosen).2.2.2.1]; exact Nat.le_refl _
+  | tick d => simp only [fstep]; omega
+  | poll e =>
+    simp only [fstep]; split
+    · rw [pollStep_now]; exact Nat.le_refl _
+    · exact Nat.le_refl _
+
+/-- one step: a current registration with its pending timer stays, unless it is explicitly
+unregistered / refreshed, or its own timer — then necessarily due — is the one being polled -/
+theorem keep_step (c : Cfg) (s : St) (h : FInv s) (key : Key) (id dl : Nat)
+    (hcur : (key, id) ∈ s.byPeer) (htm : (dl, id) ∈ s.timers) (o : FOp)
+    (hno : o ≠ .unreg key.1 key.2 ∧ ∀ t, o ≠ .reg key.1 key.2 t) :
+    ((key, id) ∈ (fstep c s o).1.byPeer ∧ (dl, id) ∈ (fstep c s o).1.timers) ∨ dl ≤ (fstep c s o).1.now := by
+  cases o with
+  | reg peer ns ttlOpt =>
+    have hk : key ≠ (peer, ns) := by
+      intro hk; apply hno.2 ttlOpt; rw [hk]
+    simp only [fstep]
+    rcases reg_cases c s peer ns ttlOpt with ⟨e, he⟩ | ⟨s', he, hbp, htm', _, _, _⟩
+    · rw [he]; exact Or.inl ⟨hcur, htm⟩
+    · rw [he]; dsimp only
+      left
+      refine ⟨?_, by rw [htm']; exact List.mem_append_left _ htm⟩
+      rw [hbp]
+      have := (h.cur key id hcur).1
+      exact mem_bimapInsert.2 (Or.inl ⟨List.mem_filter.2 ⟨hcur, by simpa using hk⟩, hk, by omega⟩)
+  | unreg peer ns =>
+    have hk : key ≠ (peer, ns) := by
+      intro hk; apply hno.1; rw [hk]
+    simp only [fstep, step, stepV]
+    left
+    rw [remove_byPeer', (remove_frame s peer ns).1]
+    exact ⟨List.mem_filter.2 ⟨hcur, by simpa using hk⟩, htm⟩
+  | disc q cookie limit chosen =>
+    simp only [fstep, step, stepV]
+    obtain ⟨h1, _, h3, _, _⟩ := get_frame2 c s q cookie limit chosen
+    left; rw [h1, h3]; exact ⟨hcur, htm⟩
+  | tick d => exact Or.inl ⟨hcur, htm⟩
+  | poll e =>
+    simp only [fstep]
+    split
+    · next hen =>
+      by_cases hid : e.2 = id
+      · right
+        have : e = (e.1, id) := by rw [← hid]
+        have heq := timer_unique h.tnd (by rw [← this]; exact hen.1) htm
+        rw [pollStep_now]; omega
+      · left
+        constructor
+        · show (key, id) ∈ (pollOne s e.2).1.byPeer
+          rw [(pollOne_frame s e.2).1]
+          exact List.mem_filter.2 ⟨hcur, by simpa using fun h => hid h.symm⟩
+        · show (dl, id) ∈ s.timers.erase e
+          exact (List.mem_erase_of_ne (by intro h; apply hid; rw [← h])).2 htm
+    · exact Or.inl ⟨hcur, htm⟩
+
+/-- **Never removed before its TTL.** Arbitrary interleaving before (`ops1`) and after (`ops2`) an
+accepted REGISTER at instant `t0` with TTL `ttl`: unless `(peer, ns)` is explicitly unregistered or
+re-registered, the registration stays current — with its own timer `(t0 + ttl, id)` pending — until
+at least `t0 + ttl`; it can only leave because that timer was polled, which requires
+`t0 + ttl ≤ now`. No `poll` iteration of another timer, no other request and no clock movement
+removes it. -/
+theorem never_removed_before_ttl (c : Cfg) (ops1 ops2 : List FOp) (peer ns : Nat) (ttlOpt : Option Nat) (ttl : Nat)
+    (hacc : (fstep c (Machine.exec (fstep c) St.init ops1) (.reg peer ns ttlOpt)).2 = .regOk ttl)
+    (hno : ∀ o ∈ ops2, o ≠ .unreg peer ns ∧ ∀ t, o ≠ .reg peer ns t) :
+    let s1 := Machine.exec (fstep c) St.init ops1
+    let s2 := Machine.exec (fstep c) (fstep c s1 (.reg peer ns ttlOpt)).1 ops2
+    (((peer, ns), s1.nextId) ∈ s2.byPeer ∧ (s1.now + ttl, s1.nextId) ∈ s2.timers) ∨ s1.now + ttl ≤ s2.now := by
+  intro s1 s2
+  have hinv1 : FInv s1 := finv_reachable c ops1
+  -- after the accepted REGISTER the entry and its timer are there
+  have hstart : FInv (fstep c s1 (.reg peer ns ttlOpt)).1 ∧
+      ((peer, ns), s1.nextId) ∈ (fstep c s1 (.reg peer ns ttlOpt)).1.byPeer ∧
+      (s1.now + ttl, s1.nextId) ∈ (fstep c s1 (.reg peer ns ttlOpt)).1.timers := by
+    refine ⟨finv_step c s1 _ hinv1, ?_⟩
+    have hacc' : (fstep c s1 (.reg peer ns ttlOpt)).2 = .regOk ttl := hacc
+    simp only [fstep] at hacc' ⊢
+    rcases reg_cases c s1 peer ns ttlOpt with ⟨e, he⟩ | ⟨s', he, hbp, htm', _, _, _⟩
+    · rw [he] at hacc'; simp at hacc'
+    · rw [he] at hacc' ⊢
+      simp only [Out.regOk.injEq] at hacc'
+      dsimp only
+      rw [hbp, htm', ← hacc']
+      exact ⟨mem_bimapInsert.2 (Or.inr ⟨rfl, rfl⟩), List.mem_append_right _ (by simp)⟩
+  -- and this is kept by every later step
+  suffices H : ∀ (ops : List FOp) (s : St), FInv s →
+      (∀ o ∈ ops, o ≠ .unreg peer ns ∧ ∀ t, o ≠ .reg peer ns t) →
+      ((((peer, ns), s1.nextId) ∈ s.byPeer ∧ (s1.now + ttl, s1.nextId) ∈ s.timers) ∨ s1.now + ttl ≤ s.now) →
+      ((((peer, ns), s1.nextId) ∈ (Machine.exec (fstep c) s ops).byPeer ∧
+          (s1.now + ttl, s1.nextId) ∈ (Machine.exec (fstep c) s ops).timers) ∨
+        s1.now + ttl ≤ (Machine.exec (fstep c) s ops).now) from
+    H ops2 _ hstart.1 hno (Or.inl hstart.2)
+  intro ops
+  induction ops with
+  | nil => intro s _ _ h; exact h
+  | cons o os ih =>
+    intro s hinv hn h
+    apply ih _ (finv_step c s o hinv) (fun o' ho' => hn o' (List.mem_cons_of_mem _ ho'))
+    rcases h with ⟨hc, ht⟩ | hle
+    · exact keep_step c s hinv (peer, ns) _ _ hc ht o (hn o (by simp))
+    · right; have := fstep_now_mono c s o; omega
+
+/-- the registration is gone for good: not current, not stored, and its id can never come back -/
+def Gone (id : Nat) (s : St) : Prop :=
+  id < s.nextId ∧ (∀ k, (k, id) ∉ s.byPeer) ∧ (∀ r, (id, r) ∉ s.regs)
+
+theorem gone_step (c : Cfg) (id : Nat) (s : St) (o : FOp) (h : Gone id s) : Gone id (fstep c s o).1 := by
+  obtain ⟨hlt, hbp, hrg⟩ := h
+  cases o with
+  | reg peer ns ttlOpt =>
+    simp only [fstep]
+    rcases reg_cases c s peer ns ttlOpt with ⟨e, he⟩ | ⟨s', he, hbp', _, hnid, _, hrg'⟩
+    · rw [he]; exact ⟨hlt, hbp, hrg⟩
+    · rw [he]; dsimp only
+      refine ⟨by omega, ?_, ?_⟩
+      · intro k hk
+        rw [hbp'] at hk
+        rcases mem_bimapInsert.1 hk with ⟨hk, _, _⟩ | ⟨_, hid⟩
+        · exact hbp k (List.mem_filter.1 hk).1
+        · omega
+      · intro r hr
+        rw [hrg'] at hr
+        unfold mapInsert at hr
+        rcases List.mem_append.1 hr with hr | hr
+        · exact hrg r ((remove_regs_sublist s peer ns).subset (List.mem_filter.1 hr).1)
+        · simp only [List.mem_singleton, Prod.mk.injEq] at hr; omega
+  | unreg peer ns =>
+    simp only [fstep, step, stepV]
+    refine ⟨by rw [(remove_frame s peer ns).2.2.1]; exact hlt, ?_, ?_⟩
+    · intro k hk; rw [remove_byPeer'] at hk; exact hbp k (List.mem_filter.1 hk).1
+    · intro r hr; exact hrg r ((remove_regs_sublist s peer ns).subset hr)
+  | disc q cookie limit chosen =>
+    simp only [fstep, step, stepV]
+    obtain ⟨h1, h2, _, _, h5⟩ := get_frame2 c s q cookie limit chosen
+    unfold Gone; rw [h1, h2, h5]; exact ⟨hlt, hbp, hrg⟩
+  | tick d => exact ⟨hlt, hbp, hrg⟩
+  | poll e =>
+    simp only [fstep]
+    split
+    · refine ⟨by show id < (pollOne s e.2).1.nextId; rw [(pollOne_frame s e.2).2.2.2.2.1]; exact hlt, ?_, ?_⟩
+      · intro k hk
+        have hk : (k, id) ∈ (pollOne s e.2).1.byPeer := hk
+        rw [(pollOne_frame s e.2).1] at hk; exact hbp k (List.mem_filter.1 hk).1
+      · intro r hr
+        have hr : (id, r) ∈ (pollOne s e.2).1.regs := hr
+        rw [pollOne_regs] at hr; exact hrg r (List.mem_filter.1 hr).1
+    · exact ⟨hlt, hbp, hrg⟩
+
+theorem allSome_ids (regs : List (Nat × Reg)) :
+    ∀ (l : List Nat) (es : List (Nat × Reg)),
+      allSome (l.map fun id => (lookup id regs).map fun r => (id, r)) = some es → es.map (·.1) = l := by
+  intro l
+  induction l with
+  | nil => intro es h; simp [allSome] at h; subst h; rfl
+  | cons a t ih =>
+    intro es h
+    simp only [List.map] at h
+    cases hl : lookup a regs with
+    | none => simp [hl, allSome] at h
+    | some v =>
+      simp only [hl, Option.map_some, allSome] at h
+      cases ht : allSome (t.map fun id => (lookup id regs).map fun r => (id, r)) with
+      | none => simp [ht] at h
+      | some es' =>
+        simp only [ht, Option.map_some, Option.some.injEq] at h
+        subst h
+        simp [ih es' ht]
+
+/-- whatever cookie, limit and oracle: a served discover returns only ids that are current -/
+theorem disc_ids_current (c : Cfg) (s : St) (q : Option Nat) (cookie : Option Cookie) (limit : Option Nat)
+    (chosen : List Nat) (entries : List (Nat × Reg)) (cns : Option Nat)
+    (h : (step c s (.disc q cookie limit chosen)).2 = .discOk entries cns) :
+    ∀ x ∈ entries, ∃ k, (k, x.1) ∈ s.byPeer := by
+  simp only [step, stepV, get_eq] at h
+  by_cases hm : cookieMismatch q cookie = true
+  · simp [hm] at h
+  · simp only [hm, Bool.false_eq_true, if_false, getCore] at h
+    generalize hfound : (cookie.bind fun ck => lookup ck s.cookies) = found at h
+    by_cases hvc : validChoice (candidates s q (found.getD [])) limit chosen = true
+    · simp only [hvc, Bool.not_true, Bool.false_eq_true, if_false] at h
+      cases hes : allSome (chosen.map fun id => (lookup id s.regs).map fun r => (id, r)) with
+      | none => rw [hes] at h; simp at h
+      | some es =>
+        rw [hes] at h
+        simp only [Out.discOk.injEq] at h
+        have hmap := allSome_ids s.regs chosen es hes
+        intro x hx
+        have hxc : x.1 ∈ chosen := by rw [← hmap, h.1]; exact List.mem_map.2 ⟨x, hx, rfl⟩
+        obtain ⟨k, hk, _, _⟩ := mem_candidates.1 ((validChoice_spec hvc).1 _ hxc)
+        exact ⟨k, hk⟩
+    · simp [hvc] at h
+
+/-- **Never discoverable after its expiry is processed.** Arbitrary interleaving before and after:
+once the `poll` iteration for a due timer `e = (deadline, id)` has run, registration `id` is not
+current, not stored, and no later discover — any namespace, cookie, limit — ever returns it. The
+statement's "after TTL" is relative to this iteration: between the deadline and the iteration the
+registration is still visible (see `visible_until_polled`). -/
+theorem never_discoverable_after_expiry_processed (c : Cfg) (ops1 ops2 : List FOp) (e : Nat × Nat)
+    (he : e ∈ (Machine.exec (fstep c) St.init ops1).timers) (hdue : e.1 ≤ (Machine.exec (fstep c) St.init ops1).now) :
+    let s1 := Machine.exec (fstep c) St.init ops1
+    let s2 := Machine.exec (fstep c) (fstep c s1 (.poll e)).1 ops2
+    (∀ k, (k, e.2) ∉ s2.byPeer) ∧ (∀ r, (e.2, r) ∉ s2.regs) ∧
+    ∀ q cookie limit chosen entries cns,
+      (fstep c s2 (.disc q cookie limit chosen)).2 = .discOk entries cns → ∀ x ∈ entries, x.1 ≠ e.2 := by
+  intro s1 s2
+  have hinv1 : FInv s1 := finv_reachable c ops1
+  have hgone1 : Gone e.2 (fstep c s1 (.poll e)).1 := by
+    have hen : e ∈ s1.timers ∧ e.1 ≤ s1.now := ⟨he, hdue⟩
+    simp only [fstep, hen, and_self, if_true]
+    refine ⟨by show e.2 < (pollOne s1 e.2).1.nextId; rw [(pollOne_frame s1 e.2).2.2.2.2.1]; exact hinv1.tlt e he, ?_, ?_⟩
+    · intro k hk
+      have hk : (k, e.2) ∈ (pollOne s1 e.2).1.byPeer := hk
+      rw [(pollOne_frame s1 e.2).1] at hk
+      simpa using (List.mem_filter.1 hk).2
+    · intro r hr
+      have hr : (e.2, r) ∈ (pollOne s1 e.2).1.regs := hr
+      rw [pollOne_regs] at hr
+      simpa using (List.mem_filter.1 hr).2
+  have hgone2 : Gone e.2 s2 :=
+    Machine.invariant_of_step (fstep c) (Gone e.2) (fun s o h => gone_step c e.2 s o h) ops2 _ hgone1
+  refine ⟨hgone2.2.1, hgone2.2.2, ?_⟩
+  intro q cookie limit chosen entries cns hd x hx hxe
+  obtain ⟨k, hk⟩ := disc_ids_current c s2 q cookie limit chosen entries cns hd x hx
+  rw [hxe] at hk
+  exact hgone2.2.1 k hk
+
+/-- **What is visible in between.** In every state reachable with arbitrary interleaving, every entry a
+discover returns is current and its own expiry has not been processed yet (its timer is still in
+`next_expiry`) — the deadline itself may already have passed: the code removes a registration in the
+`poll` iteration that processes its timer, not at the deadline. -/
+theorem visible_until_polled (c : Cfg) (ops : List FOp) (q : Option Nat) (cookie : Option Cookie)
+    (limit : Option Nat) (chosen : List Nat) (entries : List (Nat × Reg)) (cns : Option Nat)
+    (h : (fstep c (Machine.exec (fstep c) St.init ops) (.disc q cookie limit chosen)).2 = .discOk entries cns) :
+    ∀ x ∈ entries, ∃ k dl, (k, x.1) ∈ (Machine.exec (fstep c) St.init ops).byPeer ∧
+      (dl, x.1) ∈ (Machine.exec (fstep c) St.init ops).timers := by
+  intro x hx
+  obtain ⟨k, hk⟩ := disc_ids_current c _ q cookie limit chosen entries cns h x hx
+  obtain ⟨_, dl, hdl⟩ := (finv_reachable c ops).cur k x.1 hk
+  exact ⟨k, dl, hk, hdl⟩
+
+/-- non-vacuity, and the precise boundary: one second past the deadline the registration is still
+discoverable as long as its `poll` iteration has not run; right after that iteration it is gone -/
+example :
+    let s := Machine.exec (fstep cfgA) St.init [.reg 0 0 (some 600), .tick 601]
+    (fstep cfgA s (.disc none none none [0])).2 = .discOk [(0, ⟨0, 0, 600⟩)] none ∧
+    (fstep cfgA s (.poll (600, 0))).2 = .expired [(0, ⟨0, 0, 600⟩)] ∧
+    (fstep cfgA (fstep cfgA s (.poll (600, 0))).1 (.disc none none none [])).2 = .discOk [] none ∧
+    -- a timer that is not due cannot be polled
+    (fstep cfgA (Machine.exec (fstep cfgA) St.init [.reg 0 0 (some 600), .tick 599]) (.poll (600, 0))).2 = .bad := by
+  decide
+
+/-- two due timers polled in either order: same final state, events permuted -/
+example :
+    let s := Machine.exec (fstep cfgA2) St.init [.reg 0 0 (some 600), .reg 1 0 (some 600), .disc none none none [0, 1], .tick 600]
+    (pollStep (pollStep s (600, 0)).1 (600, 1)).1 = (pollStep (pollStep s (600, 1)).1 (600, 0)).1 ∧
+    (pollStep (pollStep s (600, 0)).1 (600, 1)).1 = (advance s 0).1 := by
+  decide
+
+/-! ## the bounded cookie cache -/
+
+theorem cookieMismatch_none (q : Option Nat) : cookieMismatch q none = false := by
+  unfold cookieMismatch; cases q <;> rfl
+
+/-- **An evicted cookie is an unknown cookie.** If the presented cookie is not in the cache — never
+issued, evicted by `max_cookies`, or dropped by the expiry clean-up — the server answers exactly as
+for a request without cookie (same response, same state change); in particular registrations
+returned earlier along that cookie's chain are returned again. -/
+theorem cookie_evicted_as_unknown (c : Cfg) (s : St) (q : Option Nat) (ck : Cookie) (limit : Option Nat)
+    (chosen : List Nat) (hnone : lookup ck s.cookies = none) (hm : cookieMismatch q (some ck) = false) :
+    step c s (.disc q (some ck) limit chosen) = step c s (.disc q none limit chosen) := by
+  have h2 : (lruGet s.cookies ck).2 = s.cookies := by unfold lruGet; rw [hnone]
+  simp only [step, stepV, get_eq, hm, cookieMismatch_none, Option.bind_some, Option.bind_none, hnone, h2]
+
+theorem lookup_none_of_forall {α β} [DecidableEq α] {k : α} :
+    ∀ {l : List (α × β)}, (∀ e ∈ l, e.1 ≠ k) → lookup k l = none
+  | [], _ => rfl
+  | (a, b) :: t, h => by
+    have ha : a ≠ k := h (a, b) (by simp)
+    simp only [lookup, ha, if_false]
+    exact lookup_none_of_forall (fun e he => h e (List.mem_cons_of_mem _ he))
+
+/-- **Eviction.** Inserting a fresh cookie into a full cache (distinct keys) drops exactly the least
+recently used cookie, which from then on is unknown to the server. -/
+theorem lruInsert_evicts_front (cap : Nat) (k0 : Cookie) (v0 : List Nat) (t : List (Cookie × List Nat))
+    (ck : Cookie) (set : List Nat) (hfull : ((k0, v0) :: t).length = cap)
+    (hfresh : ∀ e ∈ (k0, v0) :: t, e.1 ≠ ck) (hnd : (((k0, v0) :: t).map (·.1)).Nodup) :
+    lruInsert cap ((k0, v0) :: t) ck set = t ++ [(ck, set)] ∧
+    lookup k0 (lruInsert cap ((k0, v0) :: t) ck set) = none := by
+  have hfil : ((k0, v0) :: t).filter (fun e => !decide (e.1 = ck)) = (k0, v0) :: t :=
+    List.filter_eq_self.2 (fun e he => by simpa using hfresh e he)
+  have h1 : lruInsert cap ((k0, v0) :: t) ck set = t ++ [(ck, set)] := by
+    simp only [lruInsert, hfil]
+    rw [if_pos (by simp only [List.length_append, List.length_cons, List.length_nil] at hfull ⊢; omega)]
+    rfl
+  refine ⟨h1, ?_⟩
+  rw [h1]
+  apply lookup_none_of_forall
+  intro e he
+  simp only [List.map, List.nodup_cons] at hnd
+  rcases List.mem_append.1 he with he | he
+  · intro h; exact hnd.1 (List.mem_map.2 ⟨e, he, h⟩)
+  · simp only [List.mem_singleton] at he; subst he
+    exact fun h => hfresh (k0, v0) (by simp) h.symm
+
+/-- **At most once while cached, two consecutive pages.** Present a cached cookie `ck` (stored set `st`),
+get `entries1` and the new cookie `(s.nextCookie, q)`; present that one next (capacity ≥ 1, so it is
+cached): the second page is disjoint from `st` and from the first page. -/
+theorem cookie_once_cached (c : Cfg) (hcap : 1 ≤ c.cookieCap) (s : St) (q : Option Nat) (ck : Cookie)
+    (limit1 limit2 : Option Nat) (chosen1 chosen2 : List Nat) (st : List Nat)
+    (hst : lookup ck s.cookies = some st) (entries1 entries2 : List (Nat × Reg)) (cns1 cns2 : Option Nat) (s' s'' : St)
+    (h1 : step c s (.disc q (some ck) limit1 chosen1) = (s', .discOk entries1 cns1))
+    (h2 : step c s' (.disc q (some (s.nextCookie, q)) limit2 chosen2) = (s'', .discOk entries2 cns2)) :
+    (∀ x ∈ entries1, x.1 ∉ st) ∧
+    (∀ y ∈ entries2, y.1 ∉ st ∧ ∀ x ∈ entries1, y.1 ≠ x.1) := by
+  obtain ⟨ha, _, hb⟩ := cookie_once_step c s q ck limit1 chosen1 st hst entries1 cns1 s' h1
+  obtain ⟨hc, _, _⟩ := cookie_once_step c s' q (s.nextCookie, q) limit2 chosen2 _ (hb hcap) entries2 cns2 s'' h2
+  refine ⟨ha, fun y hy => ⟨fun h => hc y hy (List.mem_append_left _ h), fun x hx hxy => ?_⟩⟩
+  exact hc y hy (List.mem_append_right _ (by rw [hxy]; exact List.mem_map.2 ⟨x, hx, rfl⟩))
+
+/-- eviction is reached, and an evicted cookie makes the server return the registration again -/
+example :
+    let c : Cfg := ⟨600, 2400, 3, 8, 1⟩
+    let s := Machine.exec (step c) St.init [.reg 0 0 (some 600), .disc none none none [0], .disc (some 1) none none []]
+    lookup (0, none) s.cookies = none ∧
+    (step c s (.disc none (some (0, none)) none [0])).2 = .discOk [(0, ⟨0, 0, 600⟩)] none := by
+  decide
+
 end C51
 
 #print axioms C51.spec_accepts_model
@@ -596,3 +980,12 @@ end C51
 #print axioms C51.refresh_refused_at_peer_limit_buggy_counterexample
 #print axioms C51.total_limit_off_by_one_buggy_counterexample
 #print axioms C51.superseded_registration_leaks_buggy_counterexample
+#print axioms C51.pollOne_star_eq_advance
+#print axioms C51.pollOne_star_terminates
+#print axioms C51.pollOne_star_eq_advance_reachable
+#print axioms C51.never_removed_before_ttl
+#print axioms C51.never_discoverable_after_expiry_processed
+#print axioms C51.visible_until_polled
+#print axioms C51.cookie_evicted_as_unknown
+#print axioms C51.lruInsert_evicts_front
+#print axioms C51.cookie_once_cached
